@@ -156,7 +156,7 @@ theorem attr_bits :
 theorem asm_grid_complete :
     Avo.Oracle.asmBP.map (fun r => (r.attrs, r.frame, r.hasCall)) =
       [0, bitNOSPLIT, bitNOFRAME, bitNOSPLIT ||| bitNOFRAME].flatMap (fun a =>
-        ([0, 8, 16, 4096] : List Int).flatMap (fun f => [false, true].map (fun c => (a, f, c)))) := by
+        ([0, 8, 16, 4096, 2147483648, 4294967304] : List Int).flatMap (fun f => [false, true].map (fun c => (a, f, c)))) := by
   decide +kernel
 
 /-- **asm_rule_measured.**  On every case the installed toolchain accepts, the
@@ -167,10 +167,11 @@ theorem asm_rule_measured :
       r.bpPreserved == asmSavesBP r.frame (attrNoFrame r.attrs) (attrNoSplit r.attrs) r.hasCall) = true := by
   decide +kernel
 
-/-- The cases the pass produces (no NOFRAME, frame > 0) that the toolchain
-accepts all preserve BP — measured, without reference to the model of the rule. -/
+/-- The cases the pass produces below the int32 limit (no NOFRAME, 0 < frame <
+2^31) that the toolchain accepts all preserve BP — measured, without reference
+to the model of the rule. -/
 theorem asm_measured_saves_framed :
-    Avo.Oracle.asmBP.all (fun r => !(r.accepted && !attrNoFrame r.attrs && decide (r.frame > 0)) || r.bpPreserved) = true := by
+    Avo.Oracle.asmBP.all (fun r => !(r.accepted && !attrNoFrame r.attrs && decide (r.frame > 0) && decide (r.frame < frameLimit)) || r.bpPreserved) = true := by
   decide +kernel
 
 /-- … and NOFRAME cases and frameless leaves never do: the error and the forced
@@ -184,6 +185,18 @@ theorem asm_measured_loses_otherwise :
 frames, a link-time limit; see the comments in Oracle/AsmBP). -/
 theorem asm_accepts_small_frames :
     Avo.Oracle.asmBP.all (fun r => decide (r.frame > 16) || r.accepted) = true := by
+  decide +kernel
+
+/-- **The int32 truncation, MEASURED (finding F18).**  A function declared with
+a 2^31-byte frame that sets BP and does not call is accepted by the installed
+toolchain and returns with the caller's BP destroyed — with or without NOSPLIT;
+declared with 2^32+8 bytes it behaves as an 8-byte frame (BP preserved).  So the
+bound `ls < 2^31` of `bp_saved` / `C15` cannot be dropped. -/
+theorem asm_wrapped_frame_measured :
+    (Avo.Oracle.asmBP.filter (fun r => r.frame == 2147483648 && !r.hasCall && !attrNoFrame r.attrs)).map
+        (fun r => (r.attrs, r.accepted, r.bpPreserved)) = [(0, true, false), (bitNOSPLIT, true, false)] ∧
+    (Avo.Oracle.asmBP.filter (fun r => r.frame == 4294967304 && !attrNoFrame r.attrs)).all
+        (fun r => r.accepted && r.bpPreserved) = true := by
   decide +kernel
 
 /-- **bp_views_measured.**  For every non-restricted general-purpose row of
